@@ -363,6 +363,7 @@ func run(c *enum.Ctx) {
 	enum.Parallel(16, func(sh int) {
 		nt := enum.NontrivialSet{}
 		for i := sh; i < len(cases); i += 16 {
+			c.Doing(sh, cases[i])
 			c.Eval()
 			check(c, cases[i])
 			if layoutClass(cases[i].L) != "canonical" {
